@@ -81,7 +81,18 @@ def observe(c):
         return []
     n = Dn.shape[0]
     tdt = opsfam.tol_dt(c)
-    tol = (5e-3 if tdt in ("f32", "c64") else 1e-8) * max(1.0, float(np.max(np.abs(Dn)))) * max(1.0, kappa)
+    sc = c.get("_scale")
+    if sc is not None:
+        # the same dense operator times a power of ten: the factorisations scale with it (L by sqrt(c), P L U by c) and
+        # the tolerance follows the scale of the operator (no absolute floor)
+        inner = t["a"][0] if t["k"] == "Annot" else t
+        As = cola.ops.Dense(np.asarray(build.build(inner).A) * sc)
+        A = build.ANN[t["p"]["ann"]](As) if t["k"] == "Annot" else As
+        Dn = Dn * sc
+        case = f"{sc:g} * {case}"
+        at["op_scale"] = f"{sc:g}"
+    tol = (5e-3 if tdt in ("f32", "c64") else 1e-8) * max(1.0 if sc is None else 0.0, float(np.max(np.abs(Dn)))) \
+        * max(1.0, kappa)
     root_kind = t["k"] if t["k"] != "Annot" else t["a"][0]["k"]
     at["root_kind"] = root_kind
 
@@ -170,6 +181,10 @@ def run(tier):
         rest = [c for c in deep if not c["pd"]]
         step = max(1, len(rest) // 5000)
         cases = [c for c in cases if c["lvl"] <= 1] + keep_pd + rest[common.seed() % step::step]
+    scaled = [dict(c, _scale=f) for c in cases
+              if (c["t"]["k"] == "Dense" or (c["t"]["k"] == "Annot" and c["t"]["a"][0]["k"] == "Dense"))
+              and opsfam.tol_dt(c) in ("f64", "c128") for f in (1e-9, 1e6)]
+    cases = cases + scaled
     res = common.pmap(observe, cases, chunksize=16)
     viol = [v for r in res for v in r]
     nontriv = {json.dumps(c["t"], sort_keys=True) for c in cases if opsfam.nontrivial(c)}
